@@ -18,8 +18,11 @@ Import ListNotations.
 
 Definition keyc (ct : Z -> row) (cols : list nat) (raw : Z) : list Z := proj cols (ct raw).
 
-Record uhash := mkU { ucols : list nat; uents : list (nat * Z); upadd : option nat; uprem : option nat }.
-Record mgroup := mkG { gtag : nat; gkey : Z; gvals : list Z }.
+(* etag = hash-set position; eraw = the row stored there; ekey = the key under which the entry was placed
+   (it determines the bucket and therefore which lookups can see the entry) *)
+Record uent := mkE { etag : nat; eraw : Z; ekey : list Z }.
+Record uhash := mkU { ucols : list nat; uents : list uent; upadd : option nat; uprem : option nat }.
+Record mgroup := mkG { gtag : nat; gkey : Z; gskey : list Z; gvals : list Z }.
 Record mhash := mkM { mcols : list nat; mgroups : list mgroup; mpadd : option nat; mprem : option nat }.
 Record istate := mkI { uhs : list uhash; mhs : list mhash; ntag : nat }.
 
@@ -32,26 +35,30 @@ Definition opt_nat_eqb (a : option nat) (b : nat) : bool := match a with Some x 
 
 (* ------------------------------------------------------------------ UniqueHash *)
 
-Definition u_find (ct : Z -> row) (u : uhash) (k : list Z) : option (nat * Z) :=
-  find (fun e => zlist_eqb (keyc ct (ucols u) (snd e)) k) (uents u).
+(* HashSet::Find(key k): the first entry, among those a probe for k can see (R (ekey e) k: same bucket or
+   probe path and equal short hash - always true for ekey e = k), whose row has key k *)
+Definition u_find (R : list Z -> list Z -> bool) (ct : Z -> row) (u : uhash) (k : list Z) : option uent :=
+  find (fun e => R (ekey e) k && zlist_eqb (keyc ct (ucols u) (eraw e)) k) (uents u).
 
-Definition u_remove_tag (t : nat) (es : list (nat * Z)) : list (nat * Z) :=
-  filter (fun e => negb (Nat.eqb (fst e) t)) es.
+Definition u_remove_tag (t : nat) (es : list uent) : list uent :=
+  filter (fun e => negb (Nat.eqb (etag e) t)) es.
 
 (* Add(raw, oldRaw): HashSet::Insert(raw); returns *position *)
-Definition u_add (ord : nat -> nat) (ct : Z -> row) (u : uhash) (raw : Z) (old : option Z) (tag : nat) : uhash * Z :=
-  match u_find ct u (keyc ct (ucols u) raw) with
-  | Some (t, r) =>
-      let same := match old with Some o => Z.eqb r o | None => false end in
-      (if same then mkU (ucols u) (uents u) (Some t) (uprem u) else u, r)
-  | None => (mkU (ucols u) (place ord tag (tag, raw) (uents u)) (Some tag) (uprem u), raw)
+Definition u_add (ord : nat -> nat) (R : list Z -> list Z -> bool) (ct : Z -> row) (u : uhash) (raw : Z) (old : option Z) (tag : nat) : uhash * Z :=
+  let k := keyc ct (ucols u) raw in
+  match u_find R ct u k with
+  | Some e =>
+      let same := match old with Some o => Z.eqb (eraw e) o | None => false end in
+      (if same then mkU (ucols u) (uents u) (Some (etag e)) (uprem u) else u, eraw e)
+  | None => (mkU (ucols u) (place ord tag (mkE tag raw k) (uents u)) (Some tag) (uprem u), raw)
   end.
 
 (* Add(HashMixedKey): look the NEW key up (row content with column c replaced by v), add the same row *)
-Definition u_add_mixed (ord : nat -> nat) (ct : Z -> row) (u : uhash) (raw : Z) (c : nat) (v : Z) (tag : nat) : uhash * Z :=
-  match u_find ct u (proj (ucols u) (set_col c v (ct raw))) with
-  | Some (_, r) => (u, r)
-  | None => (mkU (ucols u) (place ord tag (tag, raw) (uents u)) (Some tag) (uprem u), raw)
+Definition u_add_mixed (ord : nat -> nat) (R : list Z -> list Z -> bool) (ct : Z -> row) (u : uhash) (raw : Z) (c : nat) (v : Z) (tag : nat) : uhash * Z :=
+  let k := proj (ucols u) (set_col c v (ct raw)) in
+  match u_find R ct u k with
+  | Some e => (u, eraw e)
+  | None => (mkU (ucols u) (place ord tag (mkE tag raw k) (uents u)) (Some tag) (uprem u), raw)
   end.
 
 Definition u_reject_add (u : uhash) : uhash :=
@@ -64,7 +71,7 @@ Definition u_reject_add (u : uhash) : uhash :=
 Definition u_reject_add_raw (u : uhash) (raw : Z) : uhash :=
   match upadd u with
   | Some t =>
-      if existsb (fun e => Nat.eqb (fst e) t && Z.eqb (snd e) raw) (uents u)
+      if existsb (fun e => Nat.eqb (etag e) t && Z.eqb (eraw e) raw) (uents u)
       then mkU (ucols u) (u_remove_tag t (uents u)) None (uprem u)
       else mkU (ucols u) (uents u) None (uprem u)
   | None => u
@@ -75,18 +82,19 @@ Definition u_accept_add (u : uhash) : uhash := mkU (ucols u) (uents u) None (upr
 (* AcceptAdd(raw): ResetKey(position, raw) *)
 Definition u_accept_add_raw (u : uhash) (raw : Z) : uhash :=
   match upadd u with
-  | Some t => mkU (ucols u) (map (fun e => if Nat.eqb (fst e) t then (fst e, raw) else e) (uents u)) None (uprem u)
+  | Some t => mkU (ucols u) (map (fun e => if Nat.eqb (etag e) t then mkE (etag e) raw (ekey e) else e) (uents u)) None (uprem u)
   | None => u
   end.
 
-Definition u_prepare_remove (fixu : bool) (ct : Z -> row) (u : uhash) (raw : Z) : uhash :=
-  match u_find ct u (keyc ct (ucols u) raw) with
+Definition u_prepare_remove (fixu : bool) (R : list Z -> list Z -> bool) (ct : Z -> row) (u : uhash) (raw : Z) : uhash :=
+  match u_find R ct u (keyc ct (ucols u) raw) with
   | None => u                                      (* MOMO_ASSERT(!!mPositionRemove) *)
-  | Some (t, _) =>
+  | Some e0 =>
+      let t := etag e0 in
       let t' :=
         if fixu && opt_nat_eqb (upadd u) t
-        then match find (fun e => Z.eqb (snd e) raw && negb (Nat.eqb (fst e) t)) (uents u) with
-             | Some (t2, _) => t2
+        then match find (fun e => Z.eqb (eraw e) raw && negb (Nat.eqb (etag e) t)) (uents u) with
+             | Some e2 => etag e2
              | None => t
              end
         else t in
@@ -103,8 +111,8 @@ Definition u_accept_remove (u : uhash) : uhash :=
 
 (* ------------------------------------------------------------------ MultiHash *)
 
-Definition m_find (ct : Z -> row) (m : mhash) (k : list Z) : option mgroup :=
-  find (fun g => zlist_eqb (keyc ct (mcols m) (gkey g)) k) (mgroups m).
+Definition m_find (R : list Z -> list Z -> bool) (ct : Z -> row) (m : mhash) (k : list Z) : option mgroup :=
+  find (fun g => R (gskey g) k && zlist_eqb (keyc ct (mcols m) (gkey g)) k) (mgroups m).
 
 Definition m_update_group (t : nat) (f : mgroup -> mgroup) (gs : list mgroup) : list mgroup :=
   map (fun g => if Nat.eqb (gtag g) t then f g else g) gs.
@@ -114,21 +122,23 @@ Definition m_get_group (t : nat) (gs : list mgroup) : option mgroup :=
   find (fun g => Nat.eqb (gtag g) t) gs.
 
 (* Add(raw): InsertKey(raw); if the key row is another row, pvAdd *)
-Definition m_add (ord : nat -> nat) (ct : Z -> row) (m : mhash) (raw : Z) (tag : nat) : mhash :=
-  match m_find ct m (keyc ct (mcols m) raw) with
+Definition m_add (ord : nat -> nat) (R : list Z -> list Z -> bool) (ct : Z -> row) (m : mhash) (raw : Z) (tag : nat) : mhash :=
+  let k := keyc ct (mcols m) raw in
+  match m_find R ct m k with
   | Some g =>
       let gs := if Z.eqb (gkey g) raw then mgroups m
-                else m_update_group (gtag g) (fun g => mkG (gtag g) (gkey g) (pv_add raw (gvals g))) (mgroups m) in
+                else m_update_group (gtag g) (fun g => mkG (gtag g) (gkey g) (gskey g) (pv_add raw (gvals g))) (mgroups m) in
       mkM (mcols m) gs (Some (gtag g)) (mprem m)
-  | None => mkM (mcols m) (place ord tag (mkG tag raw []) (mgroups m)) (Some tag) (mprem m)
+  | None => mkM (mcols m) (place ord tag (mkG tag raw k []) (mgroups m)) (Some tag) (mprem m)
   end.
 
-Definition m_add_mixed (ord : nat -> nat) (ct : Z -> row) (m : mhash) (raw : Z) (c : nat) (v : Z) (tag : nat) : mhash :=
-  match m_find ct m (proj (mcols m) (set_col c v (ct raw))) with
+Definition m_add_mixed (ord : nat -> nat) (R : list Z -> list Z -> bool) (ct : Z -> row) (m : mhash) (raw : Z) (c : nat) (v : Z) (tag : nat) : mhash :=
+  let k := proj (mcols m) (set_col c v (ct raw)) in
+  match m_find R ct m k with
   | Some g =>
-      mkM (mcols m) (m_update_group (gtag g) (fun g => mkG (gtag g) (gkey g) (pv_add raw (gvals g))) (mgroups m))
+      mkM (mcols m) (m_update_group (gtag g) (fun g => mkG (gtag g) (gkey g) (gskey g) (pv_add raw (gvals g))) (mgroups m))
           (Some (gtag g)) (mprem m)
-  | None => mkM (mcols m) (place ord tag (mkG tag raw []) (mgroups m)) (Some tag) (mprem m)
+  | None => mkM (mcols m) (place ord tag (mkG tag raw k []) (mgroups m)) (Some tag) (mprem m)
   end.
 
 Definition m_reject_add (m : mhash) : mhash :=
@@ -140,7 +150,7 @@ Definition m_reject_add (m : mhash) : mhash :=
       | Some g =>
           let gs := match gvals g with
                     | [] => m_remove_group t (mgroups m)
-                    | _ => m_update_group t (fun g => mkG (gtag g) (gkey g) (removelast (gvals g))) (mgroups m)
+                    | _ => m_update_group t (fun g => mkG (gtag g) (gkey g) (gskey g) (removelast (gvals g))) (mgroups m)
                     end in
           mkM (mcols m) gs None (mprem m)
       end
@@ -148,8 +158,8 @@ Definition m_reject_add (m : mhash) : mhash :=
 
 Definition m_accept_add (m : mhash) : mhash := mkM (mcols m) (mgroups m) None (mprem m).
 
-Definition m_prepare_remove (fixm : bool) (ct : Z -> row) (m : mhash) (raw : Z) : mhash :=
-  match m_find ct m (keyc ct (mcols m) raw) with
+Definition m_prepare_remove (fixm : bool) (R : list Z -> list Z -> bool) (ct : Z -> row) (m : mhash) (raw : Z) : mhash :=
+  match m_find R ct m (keyc ct (mcols m) raw) with
   | None => m
   | Some g =>
       let t := gtag g in
@@ -178,9 +188,9 @@ Definition m_accept_remove (m : mhash) (raw : Z) : mhash :=
             match gvals g with
             | [] => m_remove_group t (mgroups m)
             | _ => if Z.eqb (gkey g) raw
-                   then m_update_group t (fun g => mkG (gtag g) (last (gvals g) 0%Z) (removelast (gvals g))) (mgroups m)
+                   then m_update_group t (fun g => mkG (gtag g) (last (gvals g) 0%Z) (gskey g) (removelast (gvals g))) (mgroups m)
                    else match accept_remove raw (gvals g) with
-                        | Some vs => m_update_group t (fun g => mkG (gtag g) (gkey g) vs) (mgroups m)
+                        | Some vs => m_update_group t (fun g => mkG (gtag g) (gkey g) (gskey g) vs) (mgroups m)
                         | None => mgroups m
                         end
             end in
@@ -191,12 +201,12 @@ Definition m_accept_remove (m : mhash) (raw : Z) : mhash :=
 Definition m_filter (keep : Z -> bool) (m : mhash) : mhash :=
   mkM (mcols m)
       (flat_map (fun g => match filter_group keep (gkey g) (gvals g) with
-                          | Some (k, vs) => [mkG (gtag g) k vs]
+                          | Some (k, vs) => [mkG (gtag g) k (gskey g) vs]
                           | None => []
                           end) (mgroups m))
       (mpadd m) (mprem m).
 Definition u_filter (keep : Z -> bool) (u : uhash) : uhash :=
-  mkU (ucols u) (filter (fun e => keep (snd e)) (uents u)) (upadd u) (uprem u).
+  mkU (ucols u) (filter (fun e => keep (eraw e)) (uents u)) (upadd u) (uprem u).
 
 (* ------------------------------------------------------------------ DataIndexes: the two-phase protocol *)
 
@@ -243,14 +253,14 @@ Definition finish (s : istate) (us : list uhash) (ms : list mhash) (o : outcome)
   (mkI us ms (ntag s + tags_used s), o).
 
 (* AddRaw *)
-Definition add_raw (ord : nat -> nat) (ct : Z -> row) (fl : option nat) (s : istate) (raw : Z) : istate * outcome :=
+Definition add_raw (ord : nat -> nat) (R : list Z -> list Z -> bool) (ct : Z -> row) (fl : option nat) (s : istate) (raw : Z) : istate * outcome :=
   let rej us ms := (map u_reject_add us, map m_reject_add ms) in
-  let '(us1, v1, st1) := u_phase (fun u t => u_add ord ct u raw None t) (fun r => negb (Z.eqb r raw)) (fun _ => true)
+  let '(us1, v1, st1) := u_phase (fun u t => u_add ord R ct u raw None t) (fun r => negb (Z.eqb r raw)) (fun _ => true)
                                   fl (uhs s) 0 0 (ntag s) in
   match v1 with
   | Some o => let '(us2, ms2) := rej us1 (mhs s) in finish s us2 ms2 o
   | None =>
-      let '(ms1, v2, _) := m_phase (fun m t => m_add ord ct m raw t) (fun _ => true) fl (mhs s) 0 st1 (ntag s + length (uhs s)) in
+      let '(ms1, v2, _) := m_phase (fun m t => m_add ord R ct m raw t) (fun _ => true) fl (mhs s) 0 st1 (ntag s + length (uhs s)) in
       match v2 with
       | Some o => let '(us2, ms2) := rej us1 ms1 in finish s us2 ms2 o
       | None => finish s (map u_accept_add us1) (map m_accept_add ms1) Accepted
@@ -259,27 +269,27 @@ Definition add_raw (ord : nat -> nat) (ct : Z -> row) (fl : option nat) (s : ist
 
 (* RemoveRaw: the prepare phase only performs lookups; no step can fail in practice, the catch block is
    modelled for completeness by `fl` *)
-Definition remove_raw (fixu fixm : bool) (ct : Z -> row) (fl : option nat) (s : istate) (raw : Z) : istate * outcome :=
+Definition remove_raw (fixu fixm : bool) (R : list Z -> list Z -> bool) (ct : Z -> row) (fl : option nat) (s : istate) (raw : Z) : istate * outcome :=
   match fl with
   | Some _ => finish s (map u_reject_remove (uhs s)) (map m_reject_remove (mhs s)) Thrown
   | None =>
-      let us1 := map (fun u => u_prepare_remove fixu ct u raw) (uhs s) in
-      let ms1 := map (fun m => m_prepare_remove fixm ct m raw) (mhs s) in
+      let us1 := map (fun u => u_prepare_remove fixu R ct u raw) (uhs s) in
+      let ms1 := map (fun m => m_prepare_remove fixm R ct m raw) (mhs s) in
       finish s (map u_accept_remove us1) (map (fun m => m_accept_remove m raw) ms1) Accepted
   end.
 
 (* UpdateRaw(oldRaw, newRaw) *)
-Definition update_raw (fixu fixm : bool) (ord : nat -> nat) (ct : Z -> row) (fl : option nat) (s : istate) (old new : Z)
+Definition update_raw (fixu fixm : bool) (ord : nat -> nat) (R : list Z -> list Z -> bool) (ct : Z -> row) (fl : option nat) (s : istate) (old new : Z)
   : istate * outcome :=
   let rej us ms := (map (fun u => u_reject_remove (u_reject_add_raw u new)) us, map (fun m => m_reject_remove (m_reject_add m)) ms) in
   let '(us1, v1, st1) :=
-    u_phase (fun u t => let '(u', r) := u_add ord ct u new (Some old) t in
-                        (if Z.eqb r new then u_prepare_remove fixu ct u' old else u', r))
+    u_phase (fun u t => let '(u', r) := u_add ord R ct u new (Some old) t in
+                        (if Z.eqb r new then u_prepare_remove fixu R ct u' old else u', r))
             (fun r => negb (Z.eqb r new) && negb (Z.eqb r old)) (fun _ => true) fl (uhs s) 0 0 (ntag s) in
   match v1 with
   | Some o => let '(us2, ms2) := rej us1 (mhs s) in finish s us2 ms2 o
   | None =>
-      let '(ms1, v2, _) := m_phase (fun m t => m_prepare_remove fixm ct (m_add ord ct m new t) old) (fun _ => true)
+      let '(ms1, v2, _) := m_phase (fun m t => m_prepare_remove fixm R ct (m_add ord R ct m new t) old) (fun _ => true)
                                    fl (mhs s) 0 st1 (ntag s + length (uhs s)) in
       match v2 with
       | Some o => let '(us2, ms2) := rej us1 ms1 in finish s us2 ms2 o
@@ -289,20 +299,20 @@ Definition update_raw (fixu fixm : bool) (ord : nat -> nat) (ct : Z -> row) (fl 
   end.
 
 (* UpdateRaw(raw, offset of column c, item v, assigner).  Returns also the memory after the call. *)
-Definition update_col (fixu fixm : bool) (ord : nat -> nat) (ct : Z -> row) (fl : option nat) (s : istate) (raw : Z) (c : nat) (v : Z)
+Definition update_col (fixu fixm : bool) (ord : nat -> nat) (R : list Z -> list Z -> bool) (ct : Z -> row) (fl : option nat) (s : istate) (raw : Z) (c : nat) (v : Z)
   : istate * outcome * (Z -> row) :=
   let ct' := fun r => if Z.eqb r raw then set_col c v (ct raw) else ct r in
   if Z.eqb v (getc (ct raw) c) then (s, Accepted, ct')
   else
   let rej us ms := (map (fun u => u_reject_remove (u_reject_add u)) us, map (fun m => m_reject_remove (m_reject_add m)) ms) in
   let '(us1, v1, st1) :=
-    u_phase (fun u t => let '(u', r) := u_add_mixed ord ct u raw c v t in
-                        (if Z.eqb r raw then u_prepare_remove fixu ct u' raw else u', r))
+    u_phase (fun u t => let '(u', r) := u_add_mixed ord R ct u raw c v t in
+                        (if Z.eqb r raw then u_prepare_remove fixu R ct u' raw else u', r))
             (fun r => negb (Z.eqb r raw)) (fun u => has_col (ucols u) c) fl (uhs s) 0 0 (ntag s) in
   match v1 with
   | Some o => let '(us2, ms2) := rej us1 (mhs s) in (finish s us2 ms2 o, ct)
   | None =>
-      let '(ms1, v2, st2) := m_phase (fun m t => m_prepare_remove fixm ct (m_add_mixed ord ct m raw c v t) raw)
+      let '(ms1, v2, st2) := m_phase (fun m t => m_prepare_remove fixm R ct (m_add_mixed ord R ct m raw c v t) raw)
                                      (fun m => has_col (mcols m) c) fl (mhs s) 0 st1 (ntag s + length (uhs s)) in
       match v2 with
       | Some o => let '(us2, ms2) := rej us1 ms1 in (finish s us2 ms2 o, ct)
@@ -318,31 +328,32 @@ Definition filter_raws (keep : Z -> bool) (s : istate) : istate :=
   mkI (map (u_filter keep) (uhs s)) (map (m_filter keep) (mhs s)) (ntag s).
 
 (* pvAddHashIndex over the existing rows (in table order) *)
-Fixpoint fill_unique (ord : nat -> nat) (ct : Z -> row) (u : uhash) (raws : list Z) (tag : nat) : uhash + Z :=
+Fixpoint fill_unique (ord : nat -> nat) (R : list Z -> list Z -> bool) (ct : Z -> row) (u : uhash) (raws : list Z) (tag : nat) : uhash + Z :=
   match raws with
   | [] => inl u
   | r :: raws' =>
-      let '(u', found) := u_add ord ct u r None tag in
-      if Z.eqb found r then fill_unique ord ct (u_accept_add u') raws' (S tag) else inr r
+      let '(u', found) := u_add ord R ct u r None tag in
+      if Z.eqb found r then fill_unique ord R ct (u_accept_add u') raws' (S tag) else inr r
   end.
-Fixpoint fill_multi (ord : nat -> nat) (ct : Z -> row) (m : mhash) (raws : list Z) (tag : nat) : mhash :=
+Fixpoint fill_multi (ord : nat -> nat) (R : list Z -> list Z -> bool) (ct : Z -> row) (m : mhash) (raws : list Z) (tag : nat) : mhash :=
   match raws with
   | [] => m
-  | r :: raws' => fill_multi ord ct (m_accept_add (m_add ord ct m r tag)) raws' (S tag)
+  | r :: raws' => fill_multi ord R ct (m_accept_add (m_add ord R ct m r tag)) raws' (S tag)
   end.
 
-Definition add_unique_index (ord : nat -> nat) (ct : Z -> row) (s : istate) (cols : list nat) (raws : list Z) : istate * option Z :=
+Definition add_unique_index (ord : nat -> nat) (R : list Z -> list Z -> bool) (ct : Z -> row) (s : istate) (cols : list nat) (raws : list Z) : istate * option Z :=
   if existsb (fun u => natlist_eqb (ucols u) cols) (uhs s) then (s, None)
-  else match fill_unique ord ct (mkU cols [] None None) raws (ntag s) with
+  else match fill_unique ord R ct (mkU cols [] None None) raws (ntag s) with
        | inl u => (mkI (uhs s ++ [u]) (mhs s) (ntag s + length raws), None)
        | inr r => (mkI (uhs s) (mhs s) (ntag s + length raws), Some r)
        end.
-Definition add_multi_index (ord : nat -> nat) (ct : Z -> row) (s : istate) (cols : list nat) (raws : list Z) : istate :=
+Definition add_multi_index (ord : nat -> nat) (R : list Z -> list Z -> bool) (ct : Z -> row) (s : istate) (cols : list nat) (raws : list Z) : istate :=
   if existsb (fun m => natlist_eqb (mcols m) cols) (mhs s) then s
-  else mkI (uhs s) (mhs s ++ [fill_multi ord ct (mkM cols [] None None) raws (ntag s)]) (ntag s + length raws).
+  else mkI (uhs s) (mhs s ++ [fill_multi ord R ct (mkM cols [] None None) raws (ntag s)]) (ntag s + length raws).
 
 (* FindRaws *)
-Definition find_unique (ct : Z -> row) (u : uhash) (k : list Z) : list Z :=
-  match u_find ct u k with Some (_, r) => [r] | None => [] end.
-Definition find_multi (ct : Z -> row) (m : mhash) (k : list Z) : list Z :=
-  match m_find ct m k with Some g => gkey g :: gvals g | None => [] end.
+Definition find_unique (R : list Z -> list Z -> bool) (ct : Z -> row) (u : uhash) (k : list Z) : list Z :=
+  match u_find R ct u k with Some e => [eraw e] | None => [] end.
+(* MultiHash::Find: empty bounds for an absent key (commit 95ed81f), else key row followed by the values *)
+Definition find_multi (R : list Z -> list Z -> bool) (ct : Z -> row) (m : mhash) (k : list Z) : list Z :=
+  match m_find R ct m k with Some g => gkey g :: gvals g | None => [] end.
